@@ -44,12 +44,12 @@ REACH = ["shared_relay_pairs", "forged_create_live_exit_before_expiry", "forged_
          "created_relabelled_with_live_exit_id", "signed_message_replayed_from_adversary_address", "forged_created_badauth", "forged_created_shortkey",
          "plaintext_flagged_data_on_live_exit_id", "nested_data_message_from_outside", "data_cell_into_half_built_circuit", "custom_join_policy", "keyless_relay_early_flood", "keyless_traffic_flood",
          "forged_destroy_for_surviving_half_of_relay_pair", "first_data_cell_replayed_from_adversary_address",
-         "create_racing_with_create_for_same_id", "create_for_new_id_at_full_node"]
+         "create_racing_with_create_for_same_id", "create_for_new_id_at_full_node", "nested_data_message_reentering_at_an_exit"]
 
 ATTACKS = ["unknown_id", "garbage_live", "cross_body", "create_live", "create_live", "destroy_own_sig", "destroy_replay",
            "destroy_spoofed_src", "created_cid_swap", "signed_replay_adv", "forged_created_badauth", "forged_created_shortkey",
            "plain_data_live", "nested_data_from_outside", "data_into_half_built", "relay_early_flood", "traffic_flood",
-           "destroy_half_pair", "first_data_replay", "create_race", "full_node_create"]
+           "destroy_half_pair", "first_data_replay", "create_race", "full_node_create", "nested_reentry_exit"]
 
 
 def cases(tier: str, base_seed: int):  # noqa: ANN201
@@ -527,6 +527,38 @@ def execute(case: dict) -> dict:  # noqa: C901, PLR0915
                     c.nontrivial(f"nested_data/{x is y}")
                     for src in sorted({s3 for _t, _d, s3 in x["w"].received}):
                         x["w"].transport.sendto(nested, src)
+            elif kind == "nested_reentry_exit":
+                # the EXIT node E of circuit Y is itself the originator of a circuit X of its own; an outside host that E talks to over X
+                # answers with a datagram that looks like a data message of the tunnel overlay naming Y's id at E (ids are in the clear
+                # on E's links) and Y's outside server as destination: it never entered circuit Y and carries no session key
+                own = [ci for ci in circuits if ci["circ"].state == "READY" and ci["w"].received and ci["path"] and ci["path"][-1] is not None
+                       and not ci.get("removed")]
+                if own:
+                    from ipv8.messaging.serialization import Serializer
+                    ser = Serializer()
+                    yci = own[int(pick * 967) % len(own)]
+                    e_node = yci["path"][-1]
+                    ycid = next((cid2 for cid2, es2 in sorted(e_node.ov.exit_sockets.items()) if es2.enabled), None)
+                    others = [x2 for x2 in tw.nodes[n_orig:-1] if x2 is not e_node]
+                    if ycid is not None and others:
+                        from ipv8.peer import Peer
+                        f_node = others[int(pick * 13) % len(others)]
+                        xc = await tw.build_circuit(e_node, 1, required_exit=Peer(f_node.my_peer.public_key.key_to_bin(), f_node.address), tries=2)
+                        if xc is not None and xc.state == "READY":
+                            wx = tw.add_outside(f"wx{len(circuits)}", f"9.9.6.{1 + len(circuits) % 250}", 7700 + len(circuits) % 200)
+                            wx.reply = None
+                            e_node.call(e_node.ov.send_data, xc.hop.address, xc.circuit_id, UDPv4Address(*wx.address), ("0.0.0.0", 0), b"d" + b"4:open" + b"e")
+                            await asyncio.sleep(1.0)
+                            evil = b"d" + b"REENTRY%04d" % int(pick * 9999) + b"e"
+                            nested = e_node.ov.get_prefix() + b"\x01" + ycid.to_bytes(4, "big") + ser.pack("address", tuple(yci["w"].address)) + \
+                                ser.pack("address", ("0.0.0.0", 0)) + evil
+                            for src in sorted({s3 for _t, _d, s3 in wx.received}):
+                                wx.transport.sendto(nested, src)
+                                world.probe("nested_data_message_reentering_at_an_exit")
+                                c.nontrivial(f"nested_reentry_exit/{after_expiry}")
+                            await asyncio.sleep(1.5)
+                            e_node.call(e_node.ov.remove_circuit, xc.circuit_id, "c05 re-entry done", destroy=1)
+                            freed.add(xc.circuit_id)
             elif kind == "data_into_half_built":
                 # a circuit whose first hop has not answered yet (its join policy takes a while) is sent an un-encrypted data cell by a
                 # third party
